@@ -9,8 +9,9 @@ Correspondence: model.BuildNodeMapFromPackages + analysis.BuildGraph + analysis.
                up to 40 nodes; filepath.Clean/Join vs the model's `clean`/`join`; dag.FindCycle vs `findCycleG` (exact cycle).
 Oracle (no model): a reference validator written from the property text (`reference_defects` below), evaluated on the
                verdicts of the real code; every cycle the real FindCycle reports is checked edge by edge.
-CLI tie      : `grog check` / `grog build` on generated workspaces: invalid ⇒ exit ≠ 0 and no command ran (trace file
-               empty); valid ⇒ exit 0 (and `build` ran the commands).
+CLI tie      : `grog check|build|test|run` on fixed and generated workspaces, pointed at the whole workspace and at
+               patterns / tags / directories that select only a valid package next to the defect: invalid loaded
+               graph ⇒ exit ≠ 0, a diagnostic, and no command ran (trace file empty); valid ⇒ exit 0.
 """
 import itertools, json, os, subprocess
 
@@ -312,6 +313,36 @@ def spelling_graphs():
             yield [("t", T(p, "solo", [], [s1])), ("t", T(p, "other", [], [], bin="x"))]
 
 
+# names that share a string prefix with a directory output but are siblings of it. Every byte below '/' (0x2f) makes
+# such a sibling sort BETWEEN the directory and its contents in plain string order (out < out.zip < out/extra.txt)
+SIBLING_SUFFIXES = [".zip", "-old", " 2", ".d", "+x", ",v", "!", "#1", "$", "%", "&", "(", ")", "*", ".", "-"]
+SIBLING_CONTROL = ["_old", "0", "x", "~", "2/f"]      # bytes above '/', and something really inside
+
+
+def sibling_graphs():
+    """a directory output, something inside it declared by an unordered target, and a sibling name next to the directory
+    declared by either of them or by a third target; plus the ordered (valid) controls"""
+    for pkg in ("", "pkg"):
+        for suf in SIBLING_SUFFIXES + SIBLING_CONTROL:
+            for dspell, inner_file, inner_dir in (("dir::out", "out/extra.txt", "dir::out/sub"),
+                                                  ("dir::dist/", "dist/x/../assets/f", "dir::./dist/assets/"),
+                                                  ("dir::./o/p", "o/p/q/r", "dir::o/p/q")):
+                base = dspell[5:].rstrip("/")
+                base = base[2:] if base.startswith("./") else base
+                sib_f, sib_d = base + suf, "dir::./" + base + suf
+                a1 = T(pkg, "owner", [], [dspell, sib_f])
+                b1 = T(pkg, "inside", [], [inner_file])
+                yield [("t", a1), ("t", b1)]
+                yield [("t", b1), ("t", a1)]
+                yield [("t", T(pkg, "owner", [], [dspell])), ("t", b1), ("t", T(pkg, "third", [], [sib_f]))]
+                yield [("t", T(pkg, "third", [], [sib_d])), ("t", T(pkg, "inside", [], [inner_dir])), ("t", T(pkg, "owner", [], [dspell]))]
+                yield [("t", T(pkg, "owner", [], [dspell])), ("t", T(pkg, "inside", [], [inner_file, sib_f]))]
+                yield [("t", T(pkg, "owner", [], [sib_d, dspell])), ("t", T(pkg, "inside", [], [sib_f + "/y", inner_dir]))]
+                # ordered: valid whatever siblings there are
+                yield [("t", a1), ("t", T(pkg, "inside", [L(pkg, "owner")], [inner_file]))]
+                yield [("t", T(pkg, "owner", [L(pkg, "al")], [dspell, sib_f])), ("a", A(pkg, "al", L(pkg, "inside"))), ("t", b1)]
+
+
 def input_graphs():
     for p in ["", "a", "a/b"]:
         for i in INPUT_SPELLINGS:
@@ -400,8 +431,12 @@ def random_graph(rng, maxn=40):
         elif kind == "same-out":
             t["outs"].append(parse_out("shared.bin")); u["outs"].append(parse_out("../" * u["pkg"].count("/") + ("../" if u["pkg"] else "") + (t["pkg"] + "/" if t["pkg"] else "") + "shared.bin"))
         elif kind == "nested-dir":
+            if rng.random() < 0.5:
+                rng.choice(targets)["outs"].append(parse_out(rng.choice(["", "dir::"]) + "../" * 0 + "nest" + rng.choice(SIBLING_SUFFIXES)))
             t["outs"].append(parse_out("dir::nest")); u["outs"].append(parse_out("dir::" + "../" * (u["pkg"].count("/") + (1 if u["pkg"] else 0)) + (t["pkg"] + "/" if t["pkg"] else "") + "nest/inner"))
         elif kind == "file-in-dir":
+            if rng.random() < 0.5:
+                t["outs"].append(parse_out("fd" + rng.choice(SIBLING_SUFFIXES)))
             t["outs"].append(parse_out("dir::fd")); u["outs"].append(parse_out("../" * (u["pkg"].count("/") + (1 if u["pkg"] else 0)) + (t["pkg"] + "/" if t["pkg"] else "") + "fd/f.txt"))
         elif kind == "unknown":
             t["deps"].append(L("zz", "missing"))
@@ -523,6 +558,8 @@ def run(ctx):
         for s in SPELLINGS:
             for p in ["", "d", "a/b", "s", "w/s"]:
                 add("ws", [("t", T(p, "t", [], [s]))], ws)
+    for nodes in sibling_graphs():
+        add("sibling", nodes)
     for nodes in test_dep_graphs():
         add("testdep", nodes)
         add("testdep", list(reversed(nodes)), grouping="bypkg")
@@ -786,9 +823,6 @@ def run(ctx):
     for pkg in ["", "a", "a/b", "a/", "/r", "..", "."]:
         for out in short:
             freqs.append({"op": "analysis.pathfn", "fn": "cleanout", "pkg": pkg, "out": out})
-    fbad = ctx.diff(freqs)
-    if fbad is None:
-        return
     cov["pathfn_cases"] = len(freqs)
     areqs = []
     for _ in range(2000 if quick else 8000):
@@ -805,10 +839,27 @@ def run(ctx):
         areqs.append({"op": "analysis.ancestors", "nodes": nodes, "queries": qs})
         areqs.append({"op": "analysis.ordered", "nodes": nodes, "pairs": [[rng.choice(labs), rng.choice(labs)] for _ in range(rng.randint(1, 3 * n))]})
     canon_sets = lambda r: {"sets": [sorted({(l["pkg"], l["name"]) for l in set_}) for set_ in r["sets"]]} if "sets" in r else r
-    abad = ctx.diff(areqs, key=canon_sets)
-    if abad is None:
-        return
     cov["ancestor_cases"] = len(areqs)
+    # these unexported functions are reached through an in-package test file of the overlay (go test), so that a
+    # refactoring which removes one of them costs only this sub-tie
+    fbad, abad, direct_broken = [], [], None
+    dreqs = freqs + areqs
+    d = ctx.scratch("direct")
+    reqf, outf = os.path.join(d, "req.jsonl"), os.path.join(d, "out.jsonl")
+    with open(reqf, "w") as fh:
+        for r in dreqs:
+            fh.write(json.dumps(r, ensure_ascii=True) + "\n")
+    import vlib
+    rc, tout = vlib.go_test("./internal/analysis/", "TestVerifC11Direct$", env_extra={"C11_REQ": reqf, "C11_OUT": outf})
+    dimpl = [json.loads(l) for l in open(outf).read().split("\n") if l.strip()] if os.path.exists(outf) else []
+    if rc != 0 or len(dimpl) != len(dreqs):
+        direct_broken = tout[-3000:]
+    else:
+        dmodel = ctx.model(dreqs)
+        for r, x, y in zip(dreqs, dimpl, dmodel):
+            if vlib_canon(canon_sets(x)) != vlib_canon(canon_sets(y)):
+                (fbad if r["op"] == "analysis.pathfn" else abad).append((r, x, y))
+        cov["evaluations"] += len(dreqs)
 
     # --- CLI: reject => nothing ran ---------------------------------------------------------------------------------
     cli_smoke(ctx, quick)
@@ -826,6 +877,9 @@ def run(ctx):
             ctx.violation("model and implementation disagree (correspondence filepath.Clean/Join)",
                           {"kind": "correspondence", "correspondence": "filepath.Clean/Join vs GrogModel.Paths", "request": r, "impl": x, "model": y,
                            "n_disagreements": len(pbad)}, found_input=False)
+        if direct_broken is not None:
+            ctx.harness_broken("the in-package harness for pathWithin/pathsOverlap/pathTriesToEscape/isWithinWorkspace/cleanOutputPath/"
+                               "getAncestorSet/targetsAreOrdered does not build or run against the current tree", direct_broken)
         if fbad:
             r, x, y = min(fbad, key=lambda t: len(json.dumps(t[0])))
             ctx.violation("model and implementation disagree (correspondence path functions of the analysis package)",
@@ -869,12 +923,16 @@ def write_workspace(root, nodes, trace, files=None):
                     cmds.append("mkdir -p \"$(dirname '%s')\" && echo data > '%s'" % (o["id"], o["id"]))
                 elif o["k"] == "dir":
                     cmds.append("mkdir -p '%s' && echo data > '%s/f'" % (o["id"], o["id"]))
+            if n["bin"]:
+                cmds.append("mkdir -p \"$(dirname '%s')\" && printf '#!/bin/sh\\necho \"BIN %s\" >> %s\\n' > '%s' && chmod +x '%s'"
+                            % (n["bin"], lab(n), trace, n["bin"], n["bin"]))
             t = {"name": n["name"], "command": " && ".join(cmds), "dependencies": [lab(d) for d in n["deps"]],
                  "inputs": n["inputs"], "outputs": outs}
             if n["bin"]:
                 t["bin_output"] = n["bin"]
-            if n["testonly"]:
-                t["tags"] = ["testonly"]
+            tags = (["testonly"] if n["testonly"] else []) + list(n.get("tags", []))
+            if tags:
+                t["tags"] = tags
             by[key]["targets"].append(t)
         else:
             by[key]["aliases"].append({"name": n["name"], "actual": lab(n["actual"])})
@@ -909,6 +967,19 @@ CLI_CASES = [
     ("dir-output-escape", [("t", T("p", "a", [], ["dir::../../escaped_dir"]))], False),
     ("test-dep", [("t", T("", "lib", [L("", "x_test")], ["o"])), ("t", T("", "x_test"))], False),
     ("testonly-dep-via-alias", [("t", T("", "lib", [L("", "al")], ["o"])), ("a", A("", "al", L("", "helper"))), ("t", T("", "helper", testonly=True))], False),
+    # defects sitting in targets that `grog build //...` does not select (tests) or `grog test //...` does not (non-tests)
+    ("output-escape-in-test-target", [("t", T("bad", "lib", [], ["lib.out"])), ("t", T("bad", "lib_test", [L("bad", "lib")], ["../../report.xml"]))], False),
+    ("dir-escape-in-test-target", [("t", T("bad", "lib_test", [], ["dir::../../reports"]))], False),
+    ("input-escape-in-test-target", [("t", T("bad", "lib_test", [], [], inputs=["../other/secret.txt"]))], False),
+    ("input-escape-abs", [("t", T("bad", "lib", [], ["o"], inputs=["/etc/hostname"]))], False),
+    ("nontest-to-alias-to-test", [("t", T("bad", "release", [L("bad", "smoke_alias")], [])), ("a", A("bad", "smoke_alias", L("bad", "smoke_test"))),
+                                  ("t", T("bad", "smoke_test", [], []))], False),
+    ("conflict-between-tests", [("t", T("bad", "a_test", [], ["report.xml"])), ("t", T("bad", "b_test", [], ["./report.xml"]))], False),
+    ("cycle-among-tests", [("t", T("bad", "a_test", [L("bad", "b_test")], [])), ("t", T("bad", "b_test", [L("bad", "a_test")], []))], False),
+    # the m4 shape: a sibling whose name sorts between a directory and its contents ('.', '-', ' ' < '/')
+    ("file-in-dir-with-sibling", [("t", T("pkg", "report", [], ["dir::out", "out.zip"])), ("t", T("pkg", "extra", [], ["out/extra.txt"]))], False),
+    ("nested-dirs-with-sibling", [("t", T("pkg", "site", [], ["dir::dist/"])), ("t", T("pkg", "old", [], ["dir::./dist-old"])),
+                                  ("t", T("pkg", "assets", [], ["dir::dist/x/../assets"]))], False),
     # one package defined by two build files (merged by the loader)
     ("two-files-valid", [("t", T("p", "a", [], ["a.out"])), ("t", T("p", "b", [L("p", "a")], ["b.out"]))], True, ["BUILD.json", "BUILD.yaml"]),
     ("dup-target-two-files", [("t", T("p", "x", [], ["o1"])), ("t", T("p", "x", [], ["o2"]))], False, ["BUILD.json", "BUILD.yaml"]),
@@ -919,60 +990,105 @@ CLI_CASES = [
 ]
 
 
+GOOD_PKG = "zzgood"
+
+
+def good_nodes():
+    """a valid package added next to the defective part: a target with a binary output and a test depending on it"""
+    return [("t", dict(T(GOOD_PKG, "app", [], ["app.out"], inputs=["src.txt"], bin="app.bin"), tags=["sel"])),
+            ("t", dict(T(GOOD_PKG, "app_test", [L(GOOD_PKG, "app")], [], inputs=["src.txt"]), tags=["sel"]))]
+
+
+# every way the commands that execute something are pointed at the workspace: the whole workspace, and patterns that
+# select only the valid package (the defect is then outside the dependency closure of the request)
+# (a leading "@dir" runs the command from that directory of the workspace)
+WHOLE_CMDS = [("check",), ("build", "//..."), ("test", "//...")]
+INVALID_CMDS = WHOLE_CMDS + [("build", "//%s/..." % GOOD_PKG), ("build", "//%s:app" % GOOD_PKG),
+                             ("test", "//%s/..." % GOOD_PKG), ("run", "//%s:app" % GOOD_PKG),
+                             ("build", "--tag=sel", "//..."), ("test", "--tag=sel", "//..."),
+                             ("@" + GOOD_PKG, "build", ":app"), ("@" + GOOD_PKG, "build"), ("@" + GOOD_PKG, "check")]
+
+
 def cli_smoke(ctx, quick):
+    """`grog check|build|test|run` on materialised workspaces. Invalid loaded graph (wherever the defect sits, whatever
+    is selected) => exit != 0, a diagnostic, and no command ran; valid => exit 0."""
+    from concurrent.futures import ThreadPoolExecutor
     grog = ctx.grog_binary()
     if not grog:
         return
     cov = ctx.coverage
-    res = {}
     base = ctx.scratch("cli")
     env = dict(os.environ, HOME=os.path.join(base, "home"), GROG_ROOT=os.path.join(base, "home", ".grog"), NO_COLOR="1")
     os.makedirs(env["HOME"], exist_ok=True)
-    cases = [(c[0], c[1], c[2], c[3] if len(c) > 3 else None, ("check", "build")) for c in CLI_CASES]
-    # generated workspaces: sampled from the in-process families (no docker outputs, no empty path strings); the
-    # verdict of `grog check` must be the reference validator's; `grog build` is run on the invalid ones only
-    # (it must fail and run nothing) — commands of arbitrary valid graphs are not guaranteed to succeed
+    cases = [(c[0], c[1], c[3] if len(c) > 3 else None) for c in CLI_CASES]
+    cases.append(("valid-with-good-package", [("t", T("p", "a", [], ["a.out"]))] + good_nodes(), None))
+    # generated workspaces: sampled from the in-process families (no docker outputs, no empty path strings)
     pool = [n for n in spelling_graphs()] + [n for n in input_graphs()] + [n for n in test_dep_graphs()] + \
-           [random_graph(ctx.rng, 10) for _ in range(200)] + list(small_graphs(3, "same"))
+           [random_graph(ctx.rng, 10) for _ in range(200)] + list(small_graphs(3, "same")) + list(sibling_graphs())
     pool = [n for n in pool if n and all(
         (k == "a") or (all(o["k"] != "docker" and o["id"] not in ("", "/") and "//" not in o["id"] for o in m["outs"]) and all(i not in ("",) for i in m["inputs"]) and m["cmd"])
         for k, m in n)]
-    for i, nodes in enumerate(ctx.rng.sample(pool, 30 if quick else 200)):
-        cases.append(("gen%d" % i, nodes, None, None, None))
-    for name, nodes, valid, files, cmds in cases:
-        for cmd in cmds or ("check", "build"):
-            ws = os.path.join(base, name + "-" + cmd)
-            ref = reference_defects(graph(nodes, ws=ws))       # the validator is told the real workspace root
-            if cmds is None:
-                valid = not ref
-                if valid and cmd == "build":
-                    continue
-            assert (not ref) == valid, (name, ref)
-            trace = os.path.join(ws, "trace.log")
-            write_workspace(ws, nodes, trace, files)
-            try:
-                p = subprocess.run([grog, cmd] + (["//..."] if cmd == "build" else []), cwd=ws, env=env, capture_output=True, text=True, timeout=120)
-                rc, out = p.returncode, (p.stdout + p.stderr)[-1500:]
-            except subprocess.TimeoutExpired:
-                rc, out = 124, "timeout"
-            ran = open(trace).read().split("\n")[:-1] if os.path.exists(trace) else []
-            res[name + "/" + cmd] = {"rc": rc, "ran": len(ran)}
-            ok_now = rc == 0
-            replay = {"kind": "oracle", "oracle": "CLI", "case": name, "command": cmd, "nodes": nodes, "rc": rc, "ran": ran, "output": out}
-            if valid and not ok_now:
-                ctx.violation("grog %s fails on a valid workspace" % cmd, replay, signature="cli-rejected-valid:" + name)
-            if not valid and ok_now:
-                sig = "accepted:directory-output-outside-workspace" if name == "dir-output-escape" else "cli-accepted-invalid:" + name
-                ctx.violation("grog %s succeeds on an invalid workspace" % cmd, replay, signature=sig)
-            if not valid and not ok_now and not out.strip():
-                ctx.violation("grog %s failed on an invalid workspace without any diagnostic" % cmd, replay, signature="cli-no-diagnostic:" + name)
-            if not valid and ran:
-                ctx.violation("grog %s ran commands although the graph is invalid" % cmd, replay, signature="cli-ran-on-invalid:" + name)
-            if cmd == "check" and ran:
-                ctx.violation("grog check ran commands", replay, signature="cli-check-ran")
-            if valid and cmd == "build" and ok_now and len(ran) != sum(1 for k, _ in nodes if k == "t"):
-                ctx.violation("grog build on a valid workspace did not run every target once", replay, found_input=False)
+    for i, nodes in enumerate(ctx.rng.sample(pool, 24 if quick else 200)):
+        cases.append(("gen%d" % i, nodes, None))
+    jobs = []
+    for name, nodes, files in cases:
+        probe = os.path.join(base, name + "-0")
+        valid = not reference_defects(graph(nodes, ws=probe))          # the validator is told a real workspace root
+        has_good = any(n["pkg"] == GOOD_PKG for _, n in nodes)
+        if not valid and not has_good and not files:
+            nodes = list(nodes) + good_nodes()                           # defects are monotone: still invalid
+        if valid:
+            cmds = list(INVALID_CMDS) if has_good else [("check",)] + ([("build", "//...")] if not name.startswith("gen") else [])
+        else:
+            cmds = INVALID_CMDS if not files else [("check",), ("build", "//..."), ("test", "//...")]
+        for j, cmd in enumerate(cmds):
+            ws = os.path.join(base, "%s-%d" % (name, j))
+            assert (not reference_defects(graph(nodes, ws=ws))) == valid, name
+            jobs.append((name, nodes, files, valid, cmd, ws))
+
+    def run_job(job):
+        name, nodes, files, valid, cmd, ws = job
+        trace = os.path.join(ws, "trace.log")
+        write_workspace(ws, nodes, trace, files)
+        try:
+            cwd, args = (os.path.join(ws, cmd[0][1:]), list(cmd[1:])) if cmd[0].startswith("@") else (ws, list(cmd))
+            p = subprocess.run([grog] + args, cwd=cwd, env=env, capture_output=True, text=True, timeout=120)
+            rc, out = p.returncode, (p.stdout + p.stderr)[-1500:]
+        except subprocess.TimeoutExpired:
+            rc, out = 124, "timeout"
+        ran = open(trace).read().split("\n")[:-1] if os.path.exists(trace) else []
+        return rc, out, ran
+
+    with ThreadPoolExecutor(4) as ex:
+        results = list(ex.map(run_job, jobs))
+    res, per_cmd = {}, {}
+    for (name, nodes, files, valid, cmd, ws), (rc, out, ran) in zip(jobs, results):
+        cs = " ".join(cmd)
+        res[name + "/" + cs] = {"rc": rc, "ran": len(ran)}
+        verb = [a for a in cmd if not a.startswith("@")][0]
+        per_cmd[verb] = per_cmd.get(verb, 0) + 1
+        ok_now = rc == 0
+        partial = cmd not in WHOLE_CMDS
+        replay = {"kind": "oracle", "oracle": "CLI", "case": name, "command": cs, "nodes": nodes, "rc": rc, "ran": ran, "output": out,
+                  "selects_only_the_valid_package": partial}
+        tag = name + (":" + verb + "-valid-part-only" if partial else "")
+        if valid and not ok_now:
+            ctx.violation("grog %s fails on a valid workspace" % cs, replay, signature="cli-rejected-valid:" + tag)
+        if not valid and ok_now:
+            sig = "accepted:directory-output-outside-workspace" if name == "dir-output-escape" and not partial else "cli-accepted-invalid:" + tag
+            ctx.violation("grog %s succeeds although the loaded graph is invalid" % cs, replay, signature=sig)
+        if not valid and not ok_now and not out.strip():
+            ctx.violation("grog %s failed on an invalid workspace without any diagnostic" % cs, replay, signature="cli-no-diagnostic:" + tag)
+        if not valid and ran:
+            ctx.violation("grog %s ran commands although the loaded graph is invalid" % cs, replay, signature="cli-ran-on-invalid:" + tag)
+        if verb == "check" and ran:
+            ctx.violation("grog check ran commands", replay, signature="cli-check-ran")
+        if valid and cmd == ("build", "//...") and ok_now and not name.startswith("gen") and \
+                sorted(ran) != sorted("//%s:%s" % (n["pkg"], n["name"]) for k, n in nodes if k == "t" and not n["name"].endswith("test")):
+            ctx.violation("grog build //... on a valid workspace did not run every non-test target once", replay, found_input=False)
     cov["cli"] = res
+    cov["cli_invocations_by_command"] = per_cmd
+    cov["cli_workspaces"] = len(cases)
     cov["evaluations"] += len(res)
 
 
